@@ -337,8 +337,10 @@ func (s *Module) defineSyncStage() error {
 			err = s.billet.Traverse(func(_ []byte, n mpt.Node, _ []byte) bool {
 				nPaths, ok := pool.TryGet(n.Hash())
 				if !ok {
-					// if this situation occurs, then it's a bug in MPT pool or Traverse.
-					panic("failed to get MPT node from the pool")
+					// The same node can be referenced more than once (e.g. equal
+					// leaves under one branch). All of its paths known so far were
+					// processed and removed when it was met for the first time.
+					return false
 				}
 				pool.Remove(n.Hash())
 				childrenPaths := make(map[util.Uint256][][]byte)
